@@ -62,6 +62,13 @@ def is_type_expr(prog, mod, e):
     return False
 
 
+# identity comparisons that are meant as identity: one line per exemption, with its reason
+LINT_IS_EXEMPT = {
+    ("field/cond_srf.py", "CondSRF.__call__", "self.krige[krige_name[1]] is self._krige_var_ref"):
+        "object provenance of a cached ARRAY: the raw kriging field may be reused only with the very variance object it was computed with (R07.8); a value comparison would be wrong",
+}
+
+
 def lint_is(ctx, rule="R11.2"):
     prog = ctx.prog
     n = 0
@@ -74,7 +81,9 @@ def lint_is(ctx, rule="R11.2"):
                 singleton = any(isinstance(o, ast.Constant) and (o.value is None or isinstance(o.value, bool) or o.value is Ellipsis) for o in ops)
                 n += 1
                 site = "%s::%s" % (m.relpath, q)
-                if singleton or all(is_type_expr(prog, m, o) for o in ops) or any(is_type_expr(prog, m, o) for o in ops):
+                if (m.relpath, q, ast.unparse(node)) in LINT_IS_EXEMPT:
+                    ctx.ok(rule, site, "identity comparison exempted: %s (%s)" % (ast.unparse(node), LINT_IS_EXEMPT[(m.relpath, q, ast.unparse(node))]))
+                elif singleton or all(is_type_expr(prog, m, o) for o in ops) or any(is_type_expr(prog, m, o) for o in ops):
                     ctx.ok(rule, site, "identity comparison against a singleton / type object: %s" % ast.unparse(node))
                 else:
                     ctx.violation(rule, site, "identity comparison of possibly-numeric values (result depends on object identity, not value): %s" % ast.unparse(node), ast.unparse(node))
@@ -145,6 +154,40 @@ def change_detection(ctx, rule="R11.4"):
         if nm not in read_props:
             ctx.note(rule, "compare() does not look at `%s` (never read by a generator; note only)" % nm)
     ctx.floor(rule, "CovModel parameter setters analysed", len(written), 8)
+
+
+def requested_positions(ctx, rule="R11.9"):
+    """Field.set_pos(pos, mesh_type) must leave exactly the requested positions in the object: the generator is evaluated at
+    self.pos (pre_pos), so any other value written there - e.g. the previous tuple when the new one is 'equal' up to a tolerance -
+    makes the value returned for a location depend on what was generated before."""
+    prog = ctx.prog
+    fld = prog.cls("field/base.py", "Field")
+    n = 0
+    for ci in [fld] + list(prog.subclasses(fld)):
+        fn = ci.methods.get("set_pos")
+        if fn is None:
+            continue
+        params = [a.arg for a in fn.args.args]
+        site = "%s::%s.set_pos" % (ci.module.relpath, ci.name)
+        for st in ast.walk(fn):
+            tgts = []
+            if isinstance(st, ast.Assign):
+                for t in st.targets:
+                    tgts += list(t.elts) if isinstance(t, (ast.Tuple, ast.List)) else [t]
+            elif isinstance(st, (ast.AugAssign, ast.AnnAssign)):
+                tgts = [st.target]
+            for t in tgts:
+                if isinstance(t, ast.Attribute) and isinstance(t.value, ast.Name) and t.value.id == "self" and t.attr in ("pos", "_pos", "mesh_type", "_mesh_type"):
+                    n += 1
+                    want = t.attr.lstrip("_")
+                    val = st.value if not isinstance(st, ast.AugAssign) else None
+                    ok = isinstance(val, ast.Name) and val.id == want and want in params and isinstance(st, ast.Assign) and len(st.targets) == 1 \
+                        and not any(isinstance(x, ast.Name) and x.id == want and isinstance(x.ctx, ast.Store) for x in ast.walk(fn))
+                    ctx.check(ok, rule, site, "self.%s receives the `%s` argument of this call, unmodified: `%s`" % (t.attr, want, norm_stmt(st)), "store:%s:%s" % (t.attr, norm_stmt(st)[:50]))
+    ctx.floor(rule, "stores to pos / mesh_type in set_pos", n, 2)
+    pre = prog.func("field/base.py", "Field.pre_pos")
+    reads = sorted({ast.unparse(x) for x in ast.walk(pre) if isinstance(x, ast.Attribute) and ast.unparse(x) in ("self.pos", "self._pos")})
+    ctx.check(reads == ["self.pos"], rule, "field/base.py::Field.pre_pos", "the positions handed to the generator are read back from self.pos (set by set_pos just before): %s" % reads, "prepos-reads")
 
 
 def locality(ctx, rule="R11.5"):
@@ -261,6 +304,7 @@ def run(ctx):
     private_copy(ctx)
     change_detection(ctx)
     locality(ctx)
+    requested_positions(ctx)
     randomness(ctx)
     update_before_generate(ctx)
     return (
